@@ -258,6 +258,12 @@ func runKinds(r *mon.Run, c *checker) {
 		})
 	}
 
+	skippedCharCases(r, func(tc textCase, wide bool) {
+		if wide {
+			jobs = append(jobs, job{tc.text, tc.origin, cheap})
+		}
+	})
+
 	const block = 256
 	nb := (len(jobs) + block - 1) / block
 	mon.Par(nb, func(bi int) {
